@@ -13,7 +13,7 @@ ANCHORS = ["metrics.py:tpr", "metrics.py:tnr", "metrics.py:fpr", "metrics.py:fnr
            "metrics.py:fdr", "metrics.py:for_", "metrics.py:accuracy", "metrics.py:error_rate", "metrics.py:tpr_ci", "metrics.py:tnr_ci", "metrics.py:fpr_ci",
            "metrics.py:fnr_ci", "utils.py:binomial_ci", "metrics.py:p", "metrics.py:n", "metrics.py:top", "metrics.py:ton", "metrics.py:pop"]
 RAISES_ARE_VIOLATIONS = True
-DECIDING = {"M-met": 100000, "R-met": 15000}
+DECIDING = {"M-met": 181020, "R-met": 15085}
 QUICK_EXTRA = ["WX"]
 THOROUGH_EXTRA = ["WX", "W2"]
 RULE = (
